@@ -111,6 +111,17 @@ def cases(tier, rng):
                 for how in ('insert', 'insert-update', 'rebuild'):
                     pat = [{name}] * 5 + [set(), {name}, {name}]
                     yield (scenario_for(rng, {name}, pat, how, True, script, None, position), 'contested-%s' % position)
+    # a shared context whose last holder left comes back to life (same or another entity) while inputs are held: a new
+    # instance, suppressed like any other
+    for c in (1, 3):
+        for who in (0, 1):
+            for held in ({'key'}, {'mbutton', 'pbutton'}, {'paxis-low', 'ctrl-key'}):
+                ids = Ids()
+                sp = new_ctx_spec(ids)
+                cfg = {(c, 0): sp, (c, 1): sp}
+                steps = [sop(spawn(0, [c])), sop(spawn(1, [])), frame(mkraw(set())), frame(mkraw(held)), frame(mkraw(set())), frame(mkraw(held)), frame(mkraw(set())),
+                         sop(remove(0, c)), frame(mkraw(held)), sop(insert(who, c)), frame(mkraw(held)), frame(mkraw(held | {'motion'})), frame(mkraw(set())), frame(mkraw(held))]
+                yield (scenario([c], [0, 1], cfg, steps), 'shared-second-life')
     # UI hover over a held mouse button
     for ui in ([1, 1, 0, 0, 0], [0, 2, 2, 0, 1], [1, 0, 1, 0, 0]):
         for how in ('insert', 'rebuild'):
@@ -139,9 +150,17 @@ STAGES = [dict(name='suppression', mode='app', coq='Check.C08w', cases=cases, no
                exhaustive={'thorough': True, 'quick': True},
                rule='a context with one probed binding per input kind (key, Ctrl+key, mouse button, gamepad button, gamepad axis at 1/2, mouse motion, gamepad axes resting at 1/4 and -1/4) is inserted (directly or through Commands) or rebuilt while a '
                     'chosen subset of its inputs is held; then every press/release pattern of length 3 (quick) / 4 (thorough) per input; Ctrl+K with the key or the modifier pressed first; an existing '
-                    'consuming context on the same inputs above or below the new one whose scripted state goes Fired, Ongoing and None while the input stays down; UI hover over a held mouse button; actions with 2-4 bindings (successive `to` calls) of which some are held at creation; a context tied to one gamepad created while another gamepad holds the same button / axis; random mixes. '
+                    'consuming context on the same inputs above or below the new one whose scripted state goes Fired, Ongoing and None while the input stays down; UI hover over a held mouse button; actions with 2-4 bindings (successive `to` calls) of which some are held at creation; a context tied to one gamepad created while another gamepad holds the same button / axis; a shared context coming back to life after its last holder left; random mixes. '
                     'non-trivial = some binding gets driven; distinct = distinct scenario text')]
-CLAUSES = {1: 'a binding was driven although the input it names has been physically active in every frame since its instance was created',
+def route_cases(tier, rng):
+    import C19
+    for x in C19.held_route_cases(tier, rng):
+        yield x
+
+STAGES.append(dict(name='routes', mode='app', coq='Check.C08r', noshrink=True, cases=route_cases, nontrivial=nontrivial, shard=20,
+                   exhaustive={'thorough': False, 'quick': False},
+                   rule='actions built through the crate\'s binding routes (repeated to() calls, tuples, slices, with_conditions_each / with_modifiers_each) in a context inserted while some of the bound keys are down'))
+CLAUSES = {12: 'no new instance was built where the join / leave history requires one (or one was built where it does not): the suppression applies to a new instance', 1: 'a binding was driven although the input it names has been physically active in every frame since its instance was created',
            2: 'a binding was not driven although its input has been inactive at least once since creation', 8: 'panic', 9: 'malformed trace', 10: 'panic'}
 def describe(stage, clause): return CLAUSES.get(clause, 'clause %d' % clause)
 def matches_known(k, case, verdict): return False
